@@ -242,7 +242,7 @@ def run_case(case, seed):
                     if not ok2 or tuple(SHH.shape) != (m, k) or not exact_eq(sparse_to_arr(SHH), A):
                         fails.append(fail("hermitian_involution_sparse", f"{ca} via {nm}", via=nm, **tags))
             if cb in ("generic", "ints"):
-                for lay in ("F", "T", "view"):
+                for lay in ("F", "T", "view", "ro"):
                     ok, got = call(lambda: G.from_quat(u.quat_matmat(relayout(G.to_quat(A), lay), relayout(G.to_quat(B), lay))))
                     evals += 1
                     if not ok or not exact_eq(got, Cexp):
